@@ -40,6 +40,14 @@ MUTANTS = [
     ("C10", R + "_marker_relation.py", "        if self.payload is None:\n            object.__setattr__(self, \"payload\", payload)", "        if self.payload is None:\n            object.__setattr__(self, \"payload\", payload)\n            object.__setattr__(self.target, \"payload\", payload)", "attach_payload also writes the target's payload"),
     ("C10", R + "_relation.py", "        raise TypeError(f\"Cannot attach payload {payload} to relation {self}.\")", "        if payload is None:\n            raise TypeError(f\"Cannot attach payload {payload} to relation {self}.\")", "BaseRelation.attach_payload accepts non-None"),
     ("C10", R + "_processor.py", "                original.attach_payload(payload)\n                if result is not original:", "                object.__setattr__(original, \"payload\", payload)\n                if result is not original:", "Processor writes a payload bypassing attach_payload"),
+    ("C04", R + "_operations/_selection.py", "        if current.operation.is_count_dependent:\n            return UnaryCommutator(\n                first=None,\n                second=current.operation,\n                done=False,\n                messages=(f\"{current.operation} is count-dependent\",),\n            )\n        return UnaryCommutator(self, current.operation)", "        return UnaryCommutator(self, current.operation)", "Selection.commute drops the count-dependence guard"),
+    ("C04", R + "_operations/_selection.py", "        if not self.columns_required <= current.target.columns:\n            return UnaryCommutator(\n                first=None,\n                second=current.operation,\n                done=False,\n                messages=(\n                    f\"{current.target} is missing columns \"\n                    f\"{set(self.columns_required - current.target.columns)}\",\n                ),\n            )\n        if current.operation.is_count_dependent:", "        if current.operation.is_count_dependent:", "Selection.commute drops the missing-columns guard"),
+    ("C04", R + "_operations/_projection.py", "                    commuted_columns -= {tag}", "                    pass", "Projection.commute forgets to drop the calculated tag"),
+    ("C04", R + "_operations/_calculation.py", "Projection(current.operation.columns | {self.tag})", "Projection(current.operation.columns)", "Calculation.commute forgets to keep its tag in the projection"),
+    ("C04", R + "_operations/_slice.py", "            case Projection() | Calculation():\n                return UnaryCommutator(first=self, second=current.operation)", "            case Projection() | Calculation() | Selection():\n                return UnaryCommutator(first=self, second=current.operation)", "Slice commutes with Selection"),
+    ("C04", R + "_operations/_slice.py", "    def is_count_dependent(self) -> bool:\n        # Docstring inherited.\n        return True", "    def is_count_dependent(self) -> bool:\n        # Docstring inherited.\n        return False", "Slice.is_count_dependent flipped"),
+    ("C04", R + "_operations/_deduplication.py", "        if not current.columns >= current.target.columns:", "        if False:", "Deduplication.commute drops the column-change guard"),
+    ("C04", R + "_unary_operation.py", "        return UnaryCommutator(\n            first=None,\n            second=current.operation,\n            done=False,\n            messages=(f\"{self} does not commute with anything\",),\n        )", "        return UnaryCommutator(\n            first=None,\n            second=self,\n            done=False,\n            messages=(f\"{self} does not commute with anything\",),\n        )", "base commute hands back the wrong operation (only custom ops use it) -- must NOT be flagged"),
 ]
 
 
@@ -55,6 +63,8 @@ def main():
             shutil.copytree(os.path.join(src, "python"), os.path.join(d, "python"), ignore=shutil.ignore_patterns("__pycache__", "*.egg-info"))
             p = os.path.join(d, f)
             s = open(p).read()
+            if "_slice.py" in f and "Selection()" in new and "from ._selection import Selection" not in s:
+                s = s.replace("        from ._projection import Projection\n\n        match current.operation:", "        from ._projection import Projection\n        from ._selection import Selection\n\n        match current.operation:")
             if old not in s:
                 print(f"SKIP   {prop} #{i} {desc}: pattern not found")
                 skipped += 1
